@@ -20,6 +20,7 @@ import (
 	"github.com/aperturerobotics/bifrost/crypto"
 	"github.com/aperturerobotics/bifrost/link"
 	"github.com/aperturerobotics/bifrost/peer"
+	peer_controller "github.com/aperturerobotics/bifrost/peer/controller"
 	"github.com/aperturerobotics/bifrost/protocol"
 	"github.com/aperturerobotics/bifrost/stream"
 	"github.com/aperturerobotics/bifrost/testbed"
@@ -27,6 +28,7 @@ import (
 	tptc "github.com/aperturerobotics/bifrost/transport/controller"
 	"github.com/aperturerobotics/controllerbus/bus"
 	"github.com/aperturerobotics/controllerbus/controller"
+	"github.com/aperturerobotics/controllerbus/controller/resolver"
 	"github.com/aperturerobotics/controllerbus/directive"
 	"github.com/blang/semver/v4"
 	"github.com/sirupsen/logrus"
@@ -227,6 +229,7 @@ type env struct {
 	ctrl    *tptc.Controller
 	handler transport.TransportHandler
 	tpt     *fakeTpt
+	release chan struct{} // start-up mode: the transport constructor returns when this is closed
 }
 
 func quietLogger() *logrus.Entry {
@@ -238,7 +241,13 @@ func quietLogger() *logrus.Entry {
 
 var envTime, closeTime time.Duration
 
-func newEnv(w world) *env {
+func newEnv(w world) *env { return newEnvMode(w, false, false) }
+
+// newEnvMode: startup = the fake transport constructor blocks until ready() is
+// called (requests can reach the controller before its transport exists);
+// second = another transport controller with a different identity (model peer
+// 5) runs on the same bus, so that a request naming it as source is a real one.
+func newEnvMode(w world, startup, second bool) *env {
 	t0 := time.Now()
 	defer func() { envTime += time.Since(t0) }()
 	ctx, cancel := context.WithCancel(context.Background())
@@ -247,13 +256,24 @@ func newEnv(w world) *env {
 	if err != nil {
 		panic(err)
 	}
-	e := &env{ctx: ctx, cancel: cancel, tb: tb}
+	e := &env{ctx: ctx, cancel: cancel, tb: tb, release: make(chan struct{})}
+	if !startup {
+		close(e.release)
+	}
+	if second {
+		addSecondController(ctx, le, tb, w)
+	}
 	hch := make(chan transport.TransportHandler, 1)
 	e.tpt = &fakeTpt{id: pids[w.local]}
 	e.ctrl = tptc.NewController(le, tb.Bus, controller.NewInfo("verif/fake-transport", semver.MustParse("0.0.1"), "fake"),
 		pids[w.local], false,
 		func(ctx context.Context, le *logrus.Entry, pkey crypto.PrivKey, handler transport.TransportHandler) (transport.Transport, error) {
 			hch <- handler
+			select {
+			case <-e.release:
+			case <-ctx.Done():
+				return nil, ctx.Err()
+			}
 			return e.tpt, nil
 		})
 	if _, err := tb.Bus.AddController(ctx, e.ctrl, nil); err != nil {
@@ -264,11 +284,52 @@ func newEnv(w world) *env {
 	case <-time.After(10 * time.Second):
 		panic("controller did not construct the transport")
 	}
-	if _, err := e.ctrl.GetTransport(ctx); err != nil {
-		panic(err)
+	if !startup {
+		if _, err := e.ctrl.GetTransport(ctx); err != nil {
+			panic(err)
+		}
 	}
 	quiesce()
 	return e
+}
+
+// ready lets the transport constructor return.
+func (e *env) ready() {
+	close(e.release)
+	if _, err := e.ctrl.GetTransport(e.ctx); err != nil {
+		panic(err)
+	}
+	quiesce()
+}
+
+// addSecondController runs a peer controller and a transport controller for
+// the identity of model peer 5 on the same bus (fake transport, no links).
+func addSecondController(ctx context.Context, le *logrus.Entry, tb *testbed.Testbed, w world) {
+	id := w.id(5)
+	k := -1
+	for i, p := range pids {
+		if p == id {
+			k = i
+		}
+	}
+	conf, err := peer_controller.NewConfigWithPrivKey(privs[k])
+	if err != nil {
+		panic(err)
+	}
+	if _, _, _, err := bus.ExecOneOff(ctx, tb.Bus, resolver.NewLoadControllerWithConfig(conf), nil, nil); err != nil {
+		panic(err)
+	}
+	c2 := tptc.NewController(le, tb.Bus, controller.NewInfo("verif/fake-transport-2", semver.MustParse("0.0.1"), "fake2"),
+		id, false,
+		func(ctx context.Context, le *logrus.Entry, pkey crypto.PrivKey, handler transport.TransportHandler) (transport.Transport, error) {
+			return &fakeTpt{id: id}, nil
+		})
+	if _, err := tb.Bus.AddController(ctx, c2, nil); err != nil {
+		panic(err)
+	}
+	if _, err := c2.GetTransport(ctx); err != nil {
+		panic(err)
+	}
 }
 
 func (e *env) close() {
@@ -296,7 +357,7 @@ type lspec struct {
 }
 
 type act struct {
-	kind     int // 0 est, 1 lost, 2 resolve
+	kind     int // 0 est, 1 lost, 2 resolve, 3 transport constructed
 	p        int
 	src, dst int
 }
@@ -307,6 +368,8 @@ func (a act) term() string {
 		return hx.App("Est", hx.Nat(a.p))
 	case 1:
 		return hx.App("Lost", hx.Nat(a.p))
+	case 3:
+		return "Ready"
 	default:
 		return hx.App("Resolve", hx.Z(int64(a.src)), hx.Z(int64(a.dst)))
 	}
@@ -318,6 +381,8 @@ func (a act) String() string {
 		return fmt.Sprintf("Est %d", a.p)
 	case 1:
 		return fmt.Sprintf("Lost %d", a.p)
+	case 3:
+		return "TransportConstructed"
 	default:
 		return fmt.Sprintf("Resolve %d->%d", a.src, a.dst)
 	}
@@ -341,13 +406,14 @@ func natSet(m map[int]bool) []int {
 }
 
 type result struct {
-	obs    [][]int
-	links  map[uint64]int
-	byPeer map[int][]int
-	gpl    map[int][]int
-	closed []int
-	flinks []*fakeLink
-	held   [][2]int
+	obs     [][]int
+	links   map[uint64]int
+	byPeer  map[int][]int
+	gpl     map[int][]int
+	closed  []int
+	flinks  []*fakeLink
+	held    [][2]int
+	startup bool
 }
 
 // peersOf returns the model peer numbers that occur in a universe (plus 1).
@@ -365,7 +431,11 @@ func peersOf(u []lspec) []int {
 // execute drives a fresh controller with the history (one goroutine, waiting
 // for quiescence after every event) and returns what it reports.
 func execute(c *hx.Ctx, w world, u []lspec, h []act, concurrent int) (*result, *env) {
-	e := newEnv(w)
+	return executeMode(c, w, u, h, concurrent, false, false)
+}
+
+func executeMode(c *hx.Ctx, w world, u []lspec, h []act, concurrent int, startup, second bool) (*result, *env) {
+	e := newEnvMode(w, startup, second)
 	fl := make([]*fakeLink, len(u))
 	for i, l := range u {
 		fl[i] = &fakeLink{idx: i, uuid: uint64(l.uuid), addr: l.addr, local: w.id(l.local), remote: w.id(l.remote), closedCh: make(chan struct{})}
@@ -389,7 +459,7 @@ func execute(c *hx.Ctx, w world, u []lspec, h []act, concurrent int) (*result, *
 		}
 	}
 	quiesce()
-	res := &result{flinks: fl, held: heldKeys}
+	res := &result{flinks: fl, held: heldKeys, startup: startup}
 	step := 0
 	apply := func(a act) []int {
 		switch a.kind {
@@ -397,6 +467,8 @@ func execute(c *hx.Ctx, w world, u []lspec, h []act, concurrent int) (*result, *
 			e.handler.HandleLinkEstablished(fl[a.p])
 		case 1:
 			e.handler.HandleLinkLost(fl[a.p])
+		case 3:
+			e.ready()
 		case 2:
 			rh := &refHandler{vals: map[uint32]directive.Value{}}
 			_, ref, err := e.tb.Bus.AddDirective(link.NewEstablishLinkWithPeer(w.id(a.src), w.id(a.dst)), rh)
@@ -688,7 +760,8 @@ func emitHist(c *hx.Ctx, u []lspec, h []act, r *result) {
 	for _, k := range r.held {
 		hk = append(hk, "("+hx.Z(int64(k[0]))+", "+hx.Z(int64(k[1]))+")")
 	}
-	c.Case(hx.App("Hist", univTerm(u), "1", hx.List(hk), hx.List(hs), hx.List(obs), hx.List(lk), pl(r.byPeer), pl(r.gpl), hx.NatList(r.closed)), d)
+	d["startup"] = r.startup
+	c.Case(hx.App("Hist", univTerm(u), "1", hx.Bool(r.startup), hx.List(hk), hx.List(hs), hx.List(obs), hx.List(lk), pl(r.byPeer), pl(r.gpl), hx.NatList(r.closed)), d)
 }
 
 // genUniverse: 2-4 links over 1-2 uuids and 1-3 remote peers (incl. self).
@@ -723,6 +796,9 @@ func genHistory(c *hx.Ctx, u []lspec, n int, resolves bool, reest bool) []act {
 		case resolves && r < 30:
 			src := []int{0, 0, 1, 1, 3, 5}[c.Rng.Intn(6)]
 			dst := []int{2, 2, 3, 3, 4, 1, 0}[c.Rng.Intn(7)]
+			if len(live) > 0 && c.Rng.Intn(2) == 0 { // ask for a peer we currently have a link to
+				dst = u[live[c.Rng.Intn(len(live))]].remote
+			}
 			h = append(h, act{kind: 2, src: src, dst: dst})
 		case r < 60:
 			if used[p] && !reest {
@@ -978,7 +1054,35 @@ func c04(c *hx.Ctx) {
 		u := genUniverse(c, foreign)
 		h := genHistory(c, u, 4+c.Rng.Intn(9), true, false)
 		w := world{local: c.Rng.Intn(2)}
-		r, e := execute(c, w, u, h, 1)
+		// start-up ordering: a third of the cases make their first requests
+		// (every source/target combination) before the transport constructor
+		// returns; half of the cases have a second controller with another
+		// identity on the bus
+		startup := i%3 == 0
+		second := i%2 == 0
+		if startup {
+			var pre []act
+			for j, k := 0, 1+c.Rng.Intn(4); j < k; j++ {
+				src := []int{0, 1, 3, 5, 5}[c.Rng.Intn(5)]
+				dst := []int{2, 2, 3, 4, 1, 0}[c.Rng.Intn(6)]
+				pre = append(pre, act{kind: 2, src: src, dst: dst})
+			}
+			if i%9 == 0 { // the request the property text names: foreign source, target of a later link
+				pre = append(pre, act{kind: 2, src: 5, dst: u[0].remote})
+			}
+			h = append(append(pre, act{kind: 3}), h...)
+			// ask again for what was requested early, after the links came up
+			for _, a := range pre {
+				if c.Rng.Intn(2) == 0 {
+					h = append(h, a)
+				}
+			}
+			c.Class("startup-requests-before-transport")
+		}
+		if second {
+			c.Class("two-controllers-on-bus")
+		}
+		r, e := executeMode(c, w, u, h, 1, startup, second)
 		e.close()
 		emitHist(c, u, h, r)
 		yielded := false
